@@ -98,7 +98,11 @@ def run_case(ctx, rng, index, casedir):
         # independent readers
         if w.mode == "plain":
             data = open(w.gaf, "rb").read()
-            line_at = lambda off: (data[off:data.find(b"\n", off)].decode() if 0 <= off < len(data) else None)  # noqa: E731
+            def line_at(off):
+                if not 0 <= off < len(data):
+                    return None
+                e = data.find(b"\n", off)
+                return data[off:e if e != -1 else len(data)].decode()
         else:
             bi = bgzf.BgzfIndex(w.gaf)
             line_at = bi.line_at
